@@ -1701,6 +1701,17 @@ orc_x86_recalc_offsets (OrcCompiler *p)
 
     xinsn = ((OrcX86Insn *)p->output_insns) + i;
 
+    /* compiler->code is a fixed 64 KiB buffer; one instruction is at most
+     * 15 bytes, alignment padding at most 32 */
+    if (p->codeptr - p->code > 65536 - 64) {
+      if (!p->error) {
+        orc_compiler_error (p, "generated code does not fit the code buffer");
+        p->result = ORC_COMPILE_RESULT_UNKNOWN_COMPILE;
+      }
+      p->codeptr = p->code;
+      return;
+    }
+
     xinsn->code_offset = p->codeptr - p->code;
 
     ptr = p->codeptr;
@@ -1795,6 +1806,17 @@ orc_x86_output_insns (OrcCompiler *p)
 
   for(i=0;i<p->n_output_insns;i++){
     xinsn = ((OrcX86Insn *)p->output_insns) + i;
+
+    /* compiler->code is a fixed 64 KiB buffer; one instruction is at most
+     * 15 bytes, alignment padding at most 32 */
+    if (p->codeptr - p->code > 65536 - 64) {
+      if (!p->error) {
+        orc_compiler_error (p, "generated code does not fit the code buffer");
+        p->result = ORC_COMPILE_RESULT_UNKNOWN_COMPILE;
+      }
+      p->codeptr = p->code;
+      return;
+    }
 
     orc_x86_insn_output_asm (p, xinsn);
 
